@@ -121,3 +121,17 @@ def feature_matrix(tier, seed):
                                             "case": cases[i], "default": a[:500], name: b[:500]})
                     break
     return out
+
+
+def setup_feature_builds():
+    """cold builds of the quick-tier feature matrix (so that the first check run is not slowed down)"""
+    for name, feats in _feat_builds("quick"):
+        tdir = os.path.join(ROOT, "target", "feat-" + name)
+        cmd = ["cargo", "build", "--release", "--offline", "--target-dir", tdir]
+        if feats:
+            cmd += ["--features", ",".join(feats)]
+        b = subprocess.run(cmd, cwd=os.path.join(ROOT, "harness-feat"), capture_output=True, text=True, env=ENV)
+        if b.returncode != 0:
+            print(b.stderr[-2000:])
+            return 2
+    return 0
